@@ -65,6 +65,7 @@ def showKey (isQuery : Bool) (ks tbl : String) : Routing.KeyRes → String
   | .key none => if isQuery then "nil " ++ ks ++ "." ++ tbl else "nil"
   | .key (some b) => "ok " ++ Driver.C12.toHexC b ++ (if isQuery then " " ++ ks ++ "." ++ tbl else "")
   | .errMarshal => "err:marshal"
+  | .errValues => "err:values"
   | .errMeta => "err:meta"
   | .crash => "crash"
 
@@ -149,6 +150,7 @@ def showKeyN (isQuery : Bool) (ks tbl : List UInt8) : RoutingNames.Res → Strin
   | .res (.key none) => if isQuery then "nil " ++ toHex ks ++ "." ++ toHex tbl else "nil"
   | .res (.key (some b)) => "ok " ++ Driver.C12.toHexC b ++ (if isQuery then " " ++ toHex ks ++ "." ++ toHex tbl else "")
   | .res .errMarshal => "err:marshal"
+  | .res .errValues => "err:values"
   | .res .errMeta => "err:meta"
   | .res .crash => "crash"
 
